@@ -1,7 +1,7 @@
 //! C38 — simulator runs replay deterministically.
 use std::collections::BTreeMap;
 
-use vf_explore::{Report, Stats, Value, combi, explore, hash_of, json, ncpu, par_map};
+use vf_explore::{Report, Stats, Value, combi, explore, hash_of, json};
 
 use crate::corpus::{self, Entry};
 use crate::simrun::{Obs, Run, Verdict};
@@ -22,8 +22,9 @@ const ALPHABET: [u8; 4] = [0, 85, 170, 255];
 
 fn prog_n(name: &str) -> usize {
     match name {
-        "keyed_batch" | "keyed_batch_unordered" | "keyed_snapshot" | "cluster_batch" | "cluster_to_process" => 4,
-        _ => 3,
+        "two_slice_counter" => 2,
+        "toplevel_fold" | "two_input_tick" => 3,
+        _ => 4,
     }
 }
 
